@@ -235,3 +235,13 @@ seed(99, "unaligned-off path of skinny128_xor loops over 8 bytes instead of 16",
      ("src/skinny-internal.h", "    for (posn = 0; posn < 16; ++posn) {", "    for (posn = 0; posn < 8; ++posn) {"))
 seed(100, "32-bit word path of skinny64 set_tweak adds a length restriction (tweak_size < 4 rejected) absent from the 64-bit path", ["C12.R2", "C14.R5"],
      ("src/skinny64-cipher.c", "    if (!ks || tweak_size < 1 || tweak_size > SKINNY64_BLOCK_SIZE) {\n        return 0;\n    }\n\n    /* Read the new tweak value and swap with the original */", "    if (!ks || tweak_size < 1 || tweak_size > SKINNY64_BLOCK_SIZE) {\n        return 0;\n    }\n#if !SKINNY_64BIT\n    if (tweak_size < 4)\n        return 0;\n#endif\n\n    /* Read the new tweak value and swap with the original */"))
+
+seed(44, "mask typo in the 32-bit #else of skinny128_permute_tk", ["C12.R3"],
+     ("src/skinny128-cipher.c", "    tk->row[0] = ((row2 >>  8) & 0x000000FFU) |", "    tk->row[0] = ((row2 >>  8) & 0x0000FF00U) |"))
+seed(45, "mask typo in the vector copy of mantis_shift_rows_inverse (parallel vec128): two cells swapped", ["C06.R4", "C03.R3"],
+     ("src/mantis-parallel-vec128.c", "    state->row[2] = ((row0 <<  8) & 0x0F00U) |\n                    ((row1 <<  8) & 0xF000U) |\n                    ((row2 >>  4) & 0x00F0U) |\n                    ((row3 >> 12) & 0x000FU);\n    state->row[3] = ((row0 >>  8) & 0x000FU) |\n                    ((row1 >>  8) & 0x00F0U) |\n                    ((row2 << 12) & 0xF000U) |\n                    ((row3 <<  4) & 0x0F00U);\n}\n\nSTATIC_INLINE void mantis_mix_columns",
+      "    state->row[2] = ((row0 <<  8) & 0xF000U) |\n                    ((row1 <<  8) & 0x0F00U) |\n                    ((row2 >>  4) & 0x00F0U) |\n                    ((row3 >> 12) & 0x000FU);\n    state->row[3] = ((row0 >>  8) & 0x000FU) |\n                    ((row1 >>  8) & 0x00F0U) |\n                    ((row2 << 12) & 0xF000U) |\n                    ((row3 <<  4) & 0x0F00U);\n}\n\nSTATIC_INLINE void mantis_mix_columns"))
+seed(101, "skinny64_permute_tk: shift typo in the byte-order-neutral #else path (a cell lands in the wrong position)", ["C12.R3"],
+     ("src/skinny64-cipher.c", "    tk->row[1] = ((row2 >> 8) & 0x00F0U) |", "    tk->row[1] = ((row2 >> 4) & 0x00F0U) |"))
+seed(102, "mantis_update_tweak_inverse (scalar): mask/shift typo, h' no longer inverts h (the 4 published vectors use one tweak)", ["C03.R3", "C06.R4"],
+     ("src/mantis-cipher.c", "    tweak->row[3] =  (row0        & 0xFF00U) |\n                    ((row2 <<  4) & 0x00F0U) |\n                    ((row2 >> 12) & 0x000FU);", "    tweak->row[3] =  (row0        & 0xFF00U) |\n                    ((row2 <<  4) & 0x00F0U) |\n                    ((row2 >>  8) & 0x000FU);"))
